@@ -1426,7 +1426,17 @@ where
     /// that CONNECT is discarded. Whatever was handed over or notified since the CONNECT
     /// belongs to the session that starts now and stays.
     fn discard_session_before_connect(&mut self) {
-        let old = core::mem::take(&mut self.ids_before_connect);
+        // (an exchange that has completed since the CONNECT - acknowledged early, erased - is
+        // no longer tracked; its ID may by now be held by the application or by a pending
+        // SUBSCRIBE / UNSUBSCRIBE and is not touched)
+        let old: Vec<PacketIdType> = core::mem::take(&mut self.ids_before_connect)
+            .into_iter()
+            .filter(|packet_id| {
+                self.pid_puback.contains(packet_id)
+                    || self.pid_pubrec.contains(packet_id)
+                    || self.pid_pubcomp.contains(packet_id)
+            })
+            .collect();
         self.store.for_each(|packet| !old.contains(&packet.packet_id()));
         for packet_id in old {
             self.pid_puback.remove(&packet_id);
